@@ -510,7 +510,10 @@ def run(pid, seed, t0):
 
 
 def finish(pid, seed, t0, t_export, results, known):
-    errors = [r for r in results if 'error' in r]
+    # a harness case that exceeds its wall-clock budget is a bound that was not reached:
+    # inconclusive (nothing is claimed for it), not an engine failure
+    timeouts = [r for r in results if 'error' in r and r['error'].startswith('JobTimeout')]
+    errors = [r for r in results if 'error' in r and not r['error'].startswith('JobTimeout')]
     good = [r for r in results if 'error' not in r]
     # native validation of sampled paths
     validated = 0
@@ -611,10 +614,13 @@ def finish(pid, seed, t0, t_export, results, known):
         print('ENGINE-MISMATCH property=%s harness=%s %s' % (pid, h, why))
     for r in errors:
         print('ENGINE-ERROR property=%s harness=%s %s' % (pid, r['harness'], r['error']))
+    for r in timeouts:
+        print('INCONCLUSIVE property=%s harness=%s case=%s wall-clock budget exceeded: nothing is claimed for this case'
+              % (pid, r['harness'].split('.H_')[-1], json.dumps(r['presets'])))
     infra = bool(errors or vacuous or val_fail)
     if rc == 0 and infra:
         rc = 2
-    if rc == 0 and ARGS.strict and inconcl:
+    if rc == 0 and ARGS.strict and (inconcl or timeouts):
         rc = 2
     wall = time.time() - t0
     tot_instr = sum(funcs.values())
@@ -634,7 +640,7 @@ def finish(pid, seed, t0, t_export, results, known):
         coverage=dict(
             states=max(paths, 1), transitions=max(queries, 1), traces_validated_against_impl=validated,
             samples=samples,
-            obligations=nobl, discharged=ndis, inconclusive=len(inconcl),
+            obligations=nobl, discharged=ndis, inconclusive=len(inconcl) + len(timeouts),
             evaluations=max(nobl, 1), distinct_nontrivial=len(distinct),
             rule='one evaluation = one proof obligation (assertion, no-panic, frame or unwinding condition on one feasible path) sent to an SMT solver; '
                  'distinct = different SHA-1 of the SMT-LIB text; assertions closed by constant folding on concrete paths are counted separately (folded)',
@@ -646,6 +652,7 @@ def finish(pid, seed, t0, t_export, results, known):
             bounds=dict(getattr(cfgmod, 'BOUNDS', {}) or {}, params=params),
             functions_encoded=encoded[:80], functions_encoded_count=len(encoded), ssa_instructions_executed=tot_instr,
             queries_by_solver=by_solver, solver_time_s=round(solver_time, 2), export_time_s=round(t_export, 2),
+            cases_timed_out=[dict(harness=r['harness'].split('.H_')[-1], presets=r['presets']) for r in timeouts],
             known_findings_matched=sorted(knowns), vacuous_labels=[list(v) for v in vacuous],
             labels_reached=sorted(set('%s:%s' % (h.split('.H_')[-1], lab) for (h, lab), v in lab_all.items() if v)),
             stubs=sorted(set(s for r in good for s in r['stubs'])),
@@ -661,7 +668,7 @@ def finish(pid, seed, t0, t_export, results, known):
         with open(os.path.join(ROOT, 'evidence', pid + '.json'), 'w') as f:
             json.dump(ev, f, indent=1)
     print('%s tier=%s harness-jobs=%d paths=%d obligations=%d discharged=%d inconclusive=%d violations=%d known=%d validated-traces=%d wall=%.1fs rc=%d' % (
-        pid, ARGS.tier, len(good), paths, nobl, ndis, len(inconcl), len(violations), len(knowns), validated, wall, rc))
+        pid, ARGS.tier, len(good), paths, nobl, ndis, len(inconcl) + len(timeouts), len(violations), len(knowns), validated, wall, rc))
     return rc
 
 
